@@ -84,4 +84,37 @@ func TestAll(t *testing.T) {
 	if FanOutNamed([]int64{1, 2, 3}) != 106 {
 		t.Fatal("fanout named")
 	}
+	if InRange(3) != "in" || InRange(99) != "out" {
+		t.Fatal("case expr")
+	}
+	if o := TypedGoArgs(); o[0] != 1.5 || o[1] != 8 {
+		t.Fatal("typed go args", o)
+	}
+	if n := LabeledComplex(map[string]map[string]int{"a": {"x": 1, "skip": 2, "y": 3}, "b": {}}); n != 4 {
+		t.Fatal("labeled complex", n)
+	}
+	if k := sorted(GenericConstraintKeys()); len(k) != 3 || k[0] != "a" {
+		t.Fatal(k)
+	}
+	if Lazy() != 45 || Lazy() != 45 {
+		t.Fatal("lazy")
+	}
+	if GuardedGet("abc") != 3 || MemoGet("ab") != 2 || ShardGet("abcd") != 4 || ShardGet("abcd") != 4 {
+		t.Fatal("guarded caches")
+	}
+	if a, b := FieldsPerGoroutine(); a != 1 || b != 2 {
+		t.Fatal("fields")
+	}
+	if ImpureIndex() != 10 {
+		t.Fatal("impure index")
+	}
+	if MethodValueGo() != 100 {
+		t.Fatal("method value go")
+	}
+	if Replace("banana") != "bbnbnb" {
+		t.Fatal("replacer")
+	}
+	if GuardedIndex(5) != -1 {
+		t.Fatal("guarded index")
+	}
 }
